@@ -414,7 +414,7 @@ func checkC20(c c20Case) verdict {
 }
 
 var c20Main = newPart("C20", "calls",
-	"rapid: call lists (a pure function of the seed) executed by Node against the wasm module built from the working tree and loaded through otp-js/src/index.js; each call is made via globalThis.<name> AND via the object the package exports, followed by a well-formed probe; arguments: counters/timestamps 0..2^53 (boundaries 2^31, 2^32, 2^53), fractional numbers (truncated; a quarter of the lists are related calls under one secret and parameter set with fractions on the time and on the period independently), digits '6','8','9','10' and unknown spellings, three hashes and unknown spellings, periods 1..3600, skews 0..10, codes at window distance -(s+2)..+(s+2) and edited; malformed: every argument position x {undefined, null, NaN, -1, -1.5, 1e300, 2^63, +-Infinity, true, {}, [], a BigInt, a boxed String / Number object, a Symbol, a function, a Date, wrong-kind string/number, empty string}, too few / too many arguments, skew 11, period 0; oracle: native library AND independent reference for well-formed calls, 'error:' string for malformed ones, probe still correct; non-trivial = distance != 0 or digits != '6' or edited code or fractional number or malformed",
+	"rapid: call lists (a pure function of the seed) executed by Node against the wasm module built from the working tree and loaded through otp-js/src/index.js; each call is made via globalThis.<name> AND via the object the package exports, followed by a well-formed probe; arguments: counters/timestamps 0..2^53 (boundaries 2^31, 2^32, 2^53), fractional numbers (truncated; a quarter of the lists are related calls under one secret and parameter set with fractions on the time and on the period independently), digits '6','8','9','10' and unknown spellings, three hashes and unknown spellings, periods 1..3600, skews 0..10, codes at window distance -(s+2)..+(s+2) and edited; malformed: every argument position x {undefined, null, NaN, -1, -1.5, 1e300, 2^63, +-Infinity, true, {}, [], a BigInt, a boxed String / Number object, a Symbol, a function, a Date, wrong-kind string/number, empty string}, too few / too many arguments, skew 11, period 0; plus two grids run through the same check (malformed-grid: every function x argument position x odd value x contexts period {1,7,10,30,3600} x skew {0,1,10}; related-fractions: runs of steps with fractional periods and instants on both sides of every boundary under one secret); oracle: native library AND independent reference for well-formed calls, 'error:' string for malformed ones, probe still correct; non-trivial = distance != 0 or digits != '6' or edited code or fractional number or malformed",
 	checkC20)
 
 func drawC20Call(t *rapid.T) c20Call {
@@ -681,4 +681,103 @@ func oddSecret(secret string, k int) string {
 		return f[1] + secret[len(f[0]):]
 	}
 	return f[1]
+}
+
+// ---------------------------------------------------------------------------
+// Malformed calls as a grid. The random call lists meet a particular (function, argument position, odd value) together
+// with a particular context (a period of 10 or less, the largest admissible skew) only now and then; a binding that
+// "repairs" a malformed call under some context (swaps skew and period when one looks out of range, gives an omitted
+// argument a default) is caught by the product.
+func TestC20_MalformedGrid(t *testing.T) {
+	rec := recorders["C20/calls"]
+	defer rec.Flush()
+	strVals := []string{"undefined", "null", "NaN", "-1", "1e300", "Infinity", "true", "object", "array", "number", "empty", "bigint", "boxedString", "symbol", "function", "date"}
+	numVals := []string{"undefined", "null", "NaN", "-1", "-0.5", "1e300", "2^63", "Infinity", "-Infinity", "true", "object", "array", "string", "bigint", "boxedNumber", "symbol", "function", "date"}
+	key := []byte("12345678901234567890")
+	i := 0
+	for _, fn := range []string{"generateHOTP", "generateTOTP", "validateHOTP", "validateTOTP", "generateOTPURL"} {
+		for _, period := range []int{1, 7, 10, 30, 3600} {
+			for _, skew := range []int{0, 1, 10} {
+				if (fn == "generateHOTP" || fn == "generateOTPURL") && (period != 30 || skew != 0) {
+					continue
+				}
+				if fn == "validateHOTP" && period != 30 {
+					continue
+				}
+				if fn == "generateTOTP" && skew != 0 {
+					continue
+				}
+				base := c20Call{Fn: fn, Key: key, Sp: gen.Spelling{Pad: 1}, N: uint64(period) * 1000, Dig: "6", Alg: "SHA1", Period: period, Skew: skew, BadPos: -1, Type: "totp", Issuer: "I", Account: "a"}
+				nargs := len(base.args("000000"))
+				var cases []c20Call
+				for _, ar := range []int{-1, 1} {
+					c := base
+					c.Arity = ar
+					cases = append(cases, c)
+				}
+				for pos := 0; pos < nargs; pos++ {
+					vals := numVals
+					if isStringPos(fn, pos) {
+						vals = strVals
+					} else {
+						switch {
+						case (fn == "validateHOTP" || fn == "validateTOTP") && pos == 5:
+							vals = append(append([]string{}, vals...), "range11", "range100")
+						case fn == "generateTOTP" && pos == 4:
+							vals = append(append([]string{}, vals...), "range0", "range3601")
+						case fn == "validateTOTP" && pos == 6:
+							vals = append(append([]string{}, vals...), "range0")
+						}
+					}
+					for _, v := range vals {
+						c := base
+						c.BadPos, c.BadVal = pos, v
+						cases = append(cases, c)
+					}
+				}
+				for _, c := range cases {
+					i++
+					if !ev.Mine(i) {
+						continue
+					}
+					c20Main.each(t, c20Case{Calls: []c20Call{c}})
+				}
+			}
+		}
+	}
+}
+
+// ---------------------------------------------------------------------------
+// Related calls with fractional periods, as a grid: one secret, generateTOTP / validateTOTP at instants on both sides of
+// every step boundary of a run of steps, with a fraction on the period (the binding truncates it: 30.5 means 30) and
+// with and without a fraction on the instant. Anything keyed by the numbers as written (a cache on floor(t / 30.5)) puts
+// two of these calls into one slot although they lie in different steps.
+func TestC20_RelatedFractions(t *testing.T) {
+	rec := recorders["C20/calls"]
+	defer rec.Flush()
+	key := []byte("12345678901234567890")
+	i := 0
+	for _, p := range []int{30, 60, 7, 1} {
+		for _, fp := range []float64{0.5, 0.9} {
+			for _, fn := range []string{"generateTOTP", "validateTOTP"} {
+				i++
+				if !ev.Mine(i) {
+					continue
+				}
+				var calls []c20Call
+				for k := 55; k <= 64; k++ {
+					for _, d := range []int{0, p - 1} {
+						for _, ft := range []float64{0, 0.6} {
+							if p == 1 && d != 0 {
+								continue
+							}
+							c := c20Call{Fn: fn, Key: key, Sp: gen.Spelling{Pad: 1}, N: uint64(k*p + d), Dig: "6", Alg: "SHA1", Period: p, Skew: 0, BadPos: -1, Frac: ft, FracP: fp - ft}
+							calls = append(calls, c)
+						}
+					}
+				}
+				c20Main.each(t, c20Case{Calls: calls})
+			}
+		}
+	}
 }
